@@ -6,6 +6,7 @@ import (
 	"encoding/json"
 	"fmt"
 	"hash/fnv"
+	"io"
 	"os"
 	"runtime"
 	"sort"
@@ -37,13 +38,15 @@ type Chain struct {
 }
 
 type Workload struct {
-	Writer string    `json:"writer"` // fast | gosched | sleep | gate
-	Sync   bool      `json:"sync_writer"`
-	Toggle bool      `json:"togglers"`
-	G      [][]Chain `json:"goroutines"`
+	Writer  string    `json:"writer"` // fast | gosched | sleep | gate
+	Sync    bool      `json:"sync_writer"`
+	Toggle  bool      `json:"togglers"`
+	Console bool      `json:"console_writer,omitempty"` // a ConsoleWriter sits between the logger and the destination
+	G       [][]Chain `json:"goroutines"`
 }
 
 type checkWriter struct {
+	console  bool
 	mode     string
 	mu       sync.Mutex
 	got      [][]byte
@@ -87,7 +90,9 @@ func (w *checkWriter) Write(p []byte) (int, error) {
 
 type hook struct{}
 
-func (hook) Run(e *zerolog.Event, l zerolog.Level, m string) { e.Str("hooked", "yes").Int("lvl", int(l)) }
+func (hook) Run(e *zerolog.Event, l zerolog.Level, m string) {
+	e.Str("hooked", "yes").Int("lvl", int(l))
+}
 
 // discardDebug discards debug events; the hooks after it still run on the discarded event.
 type discardDebug struct{}
@@ -100,10 +105,15 @@ func (discardDebug) Run(e *zerolog.Event, l zerolog.Level, m string) {
 
 func loggers(w *checkWriter, syncW bool) []*zerolog.Logger {
 	var out zerolog.Logger
+	var dst io.Writer = w
+	if w.console {
+		// ConsoleWriter renders from a pooled buffer and must hand its Out one complete line per event
+		dst = zerolog.ConsoleWriter{Out: w, NoColor: true, TimeLocation: time.UTC}
+	}
 	if syncW {
-		out = zerolog.New(zerolog.SyncWriter(w))
+		out = zerolog.New(zerolog.SyncWriter(dst))
 	} else {
-		out = zerolog.New(w)
+		out = zerolog.New(dst)
 	}
 	l0 := out
 	l1 := l0.With().Str("svc", "api").Int("shard", 3).Logger()
@@ -130,7 +140,7 @@ func run(wl *Workload) (msg string, nontrivial bool) {
 	defer restore()
 	// expected: each chain alone
 	var want []string
-	solo := &checkWriter{mode: "fast"}
+	solo := &checkWriter{mode: "fast", console: wl.Console}
 	sl := loggers(solo, false)
 	oldGlobal := zlog.Logger
 	defer func() { zlog.Logger = oldGlobal }()
@@ -155,7 +165,7 @@ func run(wl *Workload) (msg string, nontrivial bool) {
 		}
 	}
 	// concurrent
-	w := &checkWriter{mode: wl.Writer, gate: make(chan struct{})}
+	w := &checkWriter{mode: wl.Writer, gate: make(chan struct{}), console: wl.Console}
 	ls := loggers(w, wl.Sync)
 	zlog.Logger = *ls[3]
 	var wg sync.WaitGroup
@@ -249,7 +259,8 @@ func genWorkload(rt *rapid.T, maxG int) *Workload {
 	cfg.MaxOps = 4
 	g := lp.NewG(rt, cfg)
 	g.Settings()
-	wl := &Workload{Writer: rapid.SampledFrom([]string{"fast", "gosched", "sleep", "gate"}).Draw(rt, "writer"), Sync: rapid.IntRange(0, 2).Draw(rt, "sync") == 0, Toggle: rapid.Bool().Draw(rt, "toggle")}
+	wl := &Workload{Writer: rapid.SampledFrom([]string{"fast", "gosched", "sleep", "gate"}).Draw(rt, "writer"), Sync: rapid.IntRange(0, 2).Draw(rt, "sync") == 0, Toggle: rapid.Bool().Draw(rt, "toggle"),
+		Console: rapid.IntRange(0, 3).Draw(rt, "console") == 0}
 	ng := rapid.IntRange(2, maxG).Draw(rt, "G")
 	for i := 0; i < ng; i++ {
 		n := rapid.IntRange(1, 6).Draw(rt, "n")
